@@ -80,7 +80,26 @@ class NowModel:
             st.trace = st.trace + (Event('clock_gettime', (args[0],), ret, {'index': i}),)
             return ret
 
-        self.ex = ex or Exec(prog, env=[(r'(^|::)clock_gettime_safe$', clock_env)])
+        def getres_env(ex_, st, callee, args, fn):
+            # clock_getres(2): on success the kernel stores the resolution of the clock, a well-formed timespec of at least 1 ns
+            # (whatever the machine: 1 ns for the fine clocks, a kernel tick - up to 10 ms with HZ=100 - for the COARSE ones)
+            if not hasattr(self, 'res'):
+                self.res = (z3.Int('clock_res_s'), z3.Int('clock_res_n'), z3.Bool('clock_getres_ok'))
+                rs, rn, _ = self.res
+                self.ex.side.append(z3.And(rs >= 0, rs <= 1, rn >= 0, rn < NS, rs * NS + rn >= 1))
+            rs, rn, rok = self.res
+            st.trace = st.trace + (Event('clock_getres', (args[0],), None),)
+            if isinstance(args[1], Ref):
+                r = args[1]
+                old = st.mem.get((r.frame, r.local))
+                st.mem[(r.frame, r.local)] = ex_.upd(old, tuple(r.path), Struct([rs, rn])) if r.path else Struct([rs, rn])
+            return z3.If(rok, z3.IntVal(0), z3.IntVal(-1))
+
+        self.ex = ex or Exec(prog, env=[(r'(^|::)clock_gettime_safe$', clock_env), (r'^(libc::)?clock_getres$', getres_env),
+                                        (r'(^|::)errno::errno$|^errno$', lambda ex_, st, callee, args, fn: Struct([z3.Int('errno_after_libc_call')])),
+                                        # the origin string of a SyscallError (syserror!): carried along, never inspected
+                                        (r'<impl str>::as_bytes$', lambda ex_, st, callee, args, fn: args[0]),
+                                        (r'CStr::from_bytes_with_nul$', lambda ex_, st, callee, args, fn: Enum(0, {'Ok': Struct([args[0]])}))])
         self.ex.no_merge = [r'::compute_bound_at$']
         ceb = Struct([Struct([v['as_s'], v['as_n']]), Struct([v['va_s'], v['va_n']]), v['bound'], v['drift'], z3.IntVal(0), Enum(v['st'], {})])
         st = State()
@@ -367,6 +386,27 @@ def run_check(prop, tier, seed, owner=None, restrict=None):
             ck.cov['functions_encoded'] = list(ck.cov['functions_encoded']) + ['ShmUpdater (histories of <= %d outcomes): void_after >= as_of + 5 s in every published record' % Hv]
         except EngineError as e:
             ck.inconclusive.append('daemon side of the premise (void_after >= as_of + 5 s): %s' % e)
+    if prop == 'C06' and owner is None and not ck.violations:
+        # the status a CALLER receives: both client libraries report the status of the record evaluated by THIS call (the wrappers are
+        # decided symbolically in C14/C17; here the realistic sequences: an answer Synchronized, then the daemon publishes something else)
+        rpw = common.Replay('debug')
+        runs = {}
+        for s2, what, want in (('syncthenunknown', 'the daemon then published the same record with status Unknown', 'now_ok:1699999999.999994000:1700000000.6000:0'),
+                               ('okthenbreach', 'the daemon then published a FreeRunning record whose as-of is 99 s ahead of the caller\'s monotonic clock', 'now_err:kind=4:errno=0')):
+            o = rpw.ask('abi2 ' + s2)
+            runs['abi2 ' + s2] = o
+            ck.cov['evaluations'] = ck.cov.get('evaluations', 0) + 1
+            f = dict(x.split('=', 1) for x in o.split()[1:] if '=' in x)
+            if not o.startswith('ok'):
+                ck.inconclusive.append('client libraries, native run abi2 %s: %s' % (s2, o[:120]))
+                continue
+            for who in ('rust', 'c'):
+                if f.get(who) != want:
+                    ck.violation('status-through-the-client-library', 'both client libraries answered once on a Synchronized record (status Synchronized); %s; the next call of the %s returns %s, expected %s: the status handed to the caller is not the one of the record evaluated by that call'
+                                 % (what, 'C library (clockbound_now)' if who == 'c' else 'Rust client', f.get(who), want), {'cmd': 'abi2 ' + s2, 'native': o})
+                    break
+        rpw.close()
+        ck.cov['native_status_through_wrappers'] = runs
     if prop == 'C05' and owner is None:
         # what the caller receives: both client libraries hand on exactly the interval now() computed (no reordering, clamping or swapping
         # of its two ends on the way out)
